@@ -9,12 +9,14 @@ package engine
 // ---- C16: a read-only engine rejects every client mutation with ErrReadOnlyMode and leaves storage untouched;
 // otherwise exactly one storage call with the caller's byte strings (C19/C01 delegation).
 //@ func (*EngineFacade).Put
+//@   nonblocking[C15]
 //@   requires e.storage != nil && e.stats != nil
 //@   ensures[C16] old(e.readOnly) && !old(e.closed) ==> err == ErrReadOnlyMode
 //@   ensures[C16] old(e.readOnly) || old(e.closed) ==> err != nil && e.storage.writes == old(e.storage.writes)
 //@   ensures[C16,C19,C01] !old(e.readOnly) && !old(e.closed) ==> e.storage.writes == old(e.storage.writes) + 1 && e.storage.lastKey == bstr(key) && e.storage.lastVal == bstr(value) && e.storage.lastValNil == (value == nil)
 //@   ensures[C16] e.readOnly == old(e.readOnly)
 //@ func (*EngineFacade).Delete
+//@   nonblocking[C15]
 //@   requires e.storage != nil && e.stats != nil
 //@   ensures[C16] old(e.readOnly) && !old(e.closed) ==> err == ErrReadOnlyMode
 //@   ensures[C16] old(e.readOnly) || old(e.closed) ==> err != nil && e.storage.writes == old(e.storage.writes)
@@ -59,6 +61,7 @@ package engine
 
 // Reads do not consult the read-only flag and do not write.
 //@ func (*EngineFacade).Get
+//@   nonblocking[C15]
 //@   requires e.storage != nil && e.stats != nil
 //@   ensures[C16,C19] !old(e.closed) ==> e.storage.reads == old(e.storage.reads) + 1 && e.storage.lastKey == bstr(key)
 //@   ensures[C16] e.storage.writes == old(e.storage.writes) && e.readOnly == old(e.readOnly)
